@@ -355,15 +355,17 @@ pub fn run(args: &Args) -> i32 {
         let scn = Scn { acc: fl[i].0, fault: fl[i].1.clone(), good_in_flight: true };
         let mut traces: BTreeSet<String> = BTreeSet::new();
         let mut found: Vec<(String, String, Vec<usize>, Vec<String>)> = vec![];
-        // quick tier: every position with <=1 deviation, a spread of positions with <=2
-        let my_bound = match (&scn.fault, thorough) {
-            (Fault::Bytes { name, bytes, .. }, false) if (*name == "request-truncated" || *name == "client-hello-truncated") && bytes.len() % 12 != 0 => bound - 1,
-            (Fault::ResponseTruncated(n), false) if n % 21 != 0 => bound - 1,
+        // quick: every position with <=1 deviation, a spread of positions with <=2;
+        // thorough: every position with <=2 deviations, the non-positional faults and a spread of positions with <=3
+        let spread = if thorough { 24 } else { 12 };
+        let my_bound = match &scn.fault {
+            Fault::Bytes { name, bytes, .. } if (*name == "request-truncated" || *name == "client-hello-truncated") && bytes.len() % spread != 0 => bound - 1,
+            Fault::ResponseTruncated(n) if n % (if thorough { 40 } else { 21 }) != 0 => bound - 1,
             _ => bound,
         };
         let stats = explore(
             my_bound,
-            if thorough { 400_000 } else { 30_000 },
+            if thorough { 250_000 } else { 30_000 },
             |prefix| run_one(&scn, prefix, tls_ref),
             |prefix, _d, ex| {
                 traces.insert(ex.outcome.trace.clone());
